@@ -1030,6 +1030,9 @@ class list_t(object):
                             v = -((~v & self.l.mask)+1)
                         
                     self.idx += 1
+                    if self.l.is_enum:
+                        # Enum lists yield enumerators, as indexing does
+                        return self.l.t.enum_i.v2e(v)
                     return int(v)
 
         class list_object_it(object):
